@@ -761,6 +761,16 @@ func c17Random(r *Rng) C17Case {
 					if r.Chance(50) {
 						bp["required"] = true
 					}
+					if r.Chance(35) {
+						// several non-form media types for one body: every one of them describes the same schema
+						op["consumes"] = Pick(r, [][]any{{"application/json", "application/xml"}, {"application/xml", "application/json", "text/plain"}, {"text/plain", "application/json"}})
+						if r.Chance(60) {
+							bp["schema"] = map[string]any{"type": "object", "properties": map[string]any{
+								"note": map[string]any{"type": "string", "x-nullable": true},
+								"tags": map[string]any{"type": "array", "items": map[string]any{"type": "string", "x-nullable": true}},
+								"v": c17Schema(r, 1, defNames)}}
+						}
+					}
 					params = append(params, bp)
 				} else if r.Chance(50) {
 					op["consumes"] = []any{"multipart/form-data"}
